@@ -7,6 +7,7 @@ cd /repo && git worktree remove --force $WT 2>/dev/null; git worktree add --deta
 for d in /verif/seeded/*/; do
   id=$(basename $d)
   [ -n "${ONLY:-}" ] && [[ "$id" != $ONLY* ]] && continue
+  [ -n "${MATCH:-}" ] && [[ ! "$id" =~ $MATCH ]] && continue
   cd $WT && git checkout -q -- . && git clean -fdq
   applies=no; demo_clean=NA; demo_patched=NA; tests=NA; testcmd=""
   /venv/bin/python $d/demo.py >/dev/null 2>&1; demo_clean=$?
